@@ -683,6 +683,11 @@ class MockCA:
             for t in offered:
                 cid = self._new_id("C")
                 tok = b64u(hashlib.sha256(("%s|%s|%d" % (cid, self.name, self.o["seed"])).encode()).digest()[:24])
+                if os.environ.get("VERIF_TOKEN_SHAPES"):
+                    # "all tokens": base64url allows `-` and `_` anywhere, also in front and at the end (about one random token in 32 starts with one)
+                    lead = ("", "-", "_", "--", "-_", "_-")[self.ctr["C"] % 6]
+                    tail = ("", "-", "_")[self.ctr["C"] % 3]
+                    tok = lead + tok[len(lead):len(tok) - len(tail)] + tail
                 self.challs[cid] = {"id": cid, "type": t, "token": tok, "status": "valid" if st == "valid" else "pending",
                                     "authz": aid, "acct": i}
                 chs.append(cid)
